@@ -38,7 +38,7 @@ def main():
         src = open(path).read()
         if src.count(m["old"]) < 1:
             print("SKIP  %-40s anchor text not found" % m["id"]); continue
-        open(path, "w").write(src.replace(m["old"], m["new"], 1))
+        open(path, "w").write(src.replace(m["old"], m["new"]) if m.get("replace_all") else src.replace(m["old"], m["new"], 1))
         r = sh("%s/bin/origamilint -prop %s -tier %s -repo %s -verif %s" % (ROOT, m["prop"], m.get("tier", "quick"), SCR, vtmp))
         open(path, "w").write(src)
         out = r.stdout + r.stderr
